@@ -10,6 +10,7 @@ import (
 
 	"github.com/welllog/golib/algz"
 
+	"verif/harness/internal/g"
 	"verif/harness/internal/pb"
 	"verif/harness/internal/trieg"
 )
@@ -32,20 +33,43 @@ func runTrie(c trieg.Case, r *pb.Rec) error {
 	}
 	tr := build(c)
 	text := string(c.Text)
-	occ, occPats := trieg.Occurrences(c.Patterns, text)
+	salt := len(text)*3 + len(c.Patterns)
+	if salt%2 == 0 {
+		text = g.Window(text, salt/2) // the same text as a window into a larger string
+		r.Class("text is a window into a larger string")
+	}
+	scan := func(text string) ([]trieg.Occ, error) {
+		occ, occPats := trieg.Occurrences(c.Patterns, text)
+		// Match
+		if got := tr.Match(text); got != (len(occ) > 0) {
+			return nil, fmt.Errorf("Match(%q) = %v with patterns %q: brute force finds %d occurrences", text, got, c.Patterns, len(occ))
+		}
+		// FindAll: one entry per (pattern, position)
+		got := tr.FindAll(text)
+		a, b := append([]string(nil), got...), append([]string(nil), occPats...)
+		sort.Strings(a)
+		sort.Strings(b)
+		if strings.Join(a, "\x00|") != strings.Join(b, "\x00|") || len(a) != len(b) {
+			return nil, fmt.Errorf("FindAll(%q) with patterns %q = %q, brute force %q", text, c.Patterns, a, b)
+		}
+		return occ, nil
+	}
+	occ, err := scan(text)
+	if err != nil {
+		return err
+	}
+	if len(text) >= 8 && salt%23 == 0 {
+		// the same trie scans texts of one length and different content, each allocated, scanned and dropped, with a
+		// garbage collection before the next one is allocated at (usually) the same address
+		r.Class("same-length texts in recycled memory, a collection between scans")
+		if err := g.Recycle(4, func(i int) error {
+			_, err := scan(strings.Repeat(trieg.Rotate(text, i+1), 64/len(text)+1))
+			return err
+		}); err != nil {
+			return err
+		}
+	}
 	set := trieg.Distinct(c.Patterns)
-	// Match
-	if got := tr.Match(text); got != (len(occ) > 0) {
-		return fmt.Errorf("Match(%q) = %v with patterns %q: brute force finds %d occurrences", text, got, c.Patterns, len(occ))
-	}
-	// FindAll: one entry per (pattern, position)
-	got := tr.FindAll(text)
-	a, b := append([]string(nil), got...), append([]string(nil), occPats...)
-	sort.Strings(a)
-	sort.Strings(b)
-	if strings.Join(a, "\x00|") != strings.Join(b, "\x00|") || len(a) != len(b) {
-		return fmt.Errorf("FindAll(%q) with patterns %q = %q, brute force %q", text, c.Patterns, a, b)
-	}
 	// PrefixSearch / FuzzySearch
 	inSet := map[string]bool{}
 	for _, p := range set {
